@@ -209,4 +209,11 @@ func init() {
 			return true
 		}),
 	}
+	properties["C14"] = &Property{
+		Rules: []string{"P0", "H1", "H2", "H3"},
+		Explanation: "Decides the purity clauses behind C14: (H1) no Process method of a query planner (nor a same-receiver helper it calls) stores into a planner field a value that depends on that field's previous value, except the memo idiom — so executing a prepared plan again starts from the same plan state (live tail re-executes every second, complex TraceQL once per portion); " +
+			"(H2) no translator function writes package-level state, so a translation cannot depend on earlier translations; (H3) no SQL fragment is accumulated in Go's randomised map order without sorting.",
+		NotCovered:  "`Same meaning apart from the time bounds` is approximated by `no planner state carries over`; state kept in sql_select objects shared between executions (With caches) is covered only through the memo idiom; plugin planners.",
+		Assumptions: []string{commonAssume},
+	}
 }
